@@ -13,32 +13,54 @@ type trimWriter struct {
 	w    io.Writer
 	buf  bytes.Buffer
 	trim bool
+	text bool // the buffer holds literal template text
 }
 
-// Write writes b to the current buffer. If the trim flag is set,
-// a prefix whitespace trim on b is performed before writing it to
-// the buffer and the trim flag is unset. In either case the current
-// buffer is flushed before b is written.
+// Write writes output that is not literal template text - a value printed by an object,
+// the output of a tag, the body of a raw block. Whitespace control applies to the literal
+// text next to a tag, so such output is never trimmed, and a pending right trim ends at it.
 // Write only returns the bytes written to w during a flush.
 func (tw *trimWriter) Write(b []byte) (n int, err error) {
+	if len(b) == 0 {
+		return 0, nil
+	}
+	tw.trim = false
+	if n, err = tw.Flush(); err != nil {
+		return n, err
+	}
+	tw.text = false
+	_, err = tw.buf.Write(b)
+	return
+}
+
+// WriteText writes literal template text to the current buffer. If the trim flag is set,
+// a prefix whitespace trim on s is performed before writing it to the buffer and the
+// trim flag is unset. In either case the current buffer is flushed before s is written.
+func (tw *trimWriter) WriteText(s string) error {
+	b := []byte(s)
 	if tw.trim {
 		b = bytes.TrimLeftFunc(b, unicode.IsSpace)
 		tw.trim = false
 	}
 	// Always flush what came before: a later TrimLeft must only see this write,
 	// not text that precedes the tag that set the trim flag.
-	if n, err = tw.Flush(); err != nil {
-		return n, err
+	if _, err := tw.Flush(); err != nil {
+		return err
 	}
-	_, err = tw.buf.Write(b)
-	return
+	tw.text = true
+	_, err := tw.buf.Write(b)
+	return err
 }
 
 // TrimLeft trims all whitespaces before the trim node, i.e. the whitespace
-// suffix of the current buffer. It then writes the current buffer to w and
-// resets the buffer.
+// suffix of the current buffer when that is literal text. It then writes the
+// current buffer to w and resets the buffer.
 func (tw *trimWriter) TrimLeft() error {
-	_, err := tw.w.Write(bytes.TrimRightFunc(tw.buf.Bytes(), unicode.IsSpace))
+	b := tw.buf.Bytes()
+	if tw.text {
+		b = bytes.TrimRightFunc(b, unicode.IsSpace)
+	}
+	_, err := tw.w.Write(b)
 	tw.buf.Reset()
 	return err
 }
